@@ -309,3 +309,84 @@ def rois(ctx, d):
     m = _roi_scores(ctx, [a[0] + sx, a[1] + sy, a[2], a[3]], [b[0] + sx, b[1] + sy, b[2], b[3]], "roi scores(shifted)")
     if m is not None:
         ctx.require(close(m["iou2"], s["iou2"], 1e-9) and close(m["cd"], s["cd"], 1e-9), "not-motion-invariant", lambda: f"{s} vs shifted {m}")
+
+
+# ------------------------------------------------------------------------------------------------
+# objects re-posed the way the library itself does it (deepcopy + state reassignment: frame interpolation,
+# convert_objects_to_global / _to_base_link) must score exactly like fresh objects at the new pose
+# (added after a seeded change cached the footprint polygon on the object)
+# ------------------------------------------------------------------------------------------------
+
+
+@CHECK.given("reposed_copies", lambda tier: pairs3d(tier), quick=250, thorough=30000)
+def reposed_copies(ctx, d):
+    import copy
+
+    from perception_eval.common.dataset import convert_objects_to_base_link, convert_objects_to_global
+    from pyquaternion import Quaternion
+
+    a, b = d["a"], d["b"]
+    ctx.cls("kind_" + d["kind"])
+    ea, gb = D.obj3d(a), D.obj3d(b)
+    s0 = _scores(ctx, ea, gb, what="scores(first use)")  # first use: whatever the objects memoise is now set
+    if s0 is None:
+        return
+    min_dim = min(a["size"][0], a["size"][1], b["size"][0], b["size"][1])
+    # (1) deepcopy + reassigned state (what interpolate_dynamic_object does), estimate only
+    dyaw, dx, dy = d["motion"]
+    dx, dy = max(-50.0, min(50.0, dx)), max(-50.0, min(50.0, dy))
+    a2 = _moved(a, dyaw, dx, dy)
+    ea2 = copy.deepcopy(ea)
+    with ctx.under_test("re-pose a deep copy"):
+        p2, q2 = D.render_pose(a2, "base_link", None)
+        ea2.state.position = tuple(p2)
+        ea2.state.orientation = Quaternion(q2[0], q2[1], q2[2], q2[3])
+    s1 = _scores(ctx, ea2, gb, what="scores(re-posed copy)")
+    if s1 is not None:
+        ba2, bb = D.ego_box(a2), D.ego_box(b)
+        r_iou2 = G.box_iou_bev(ba2, bb)
+        r_iou3 = G.box_iou_3d(ba2, a2["p"][2], a2["size"][2], bb, b["p"][2], b["size"][2])
+        r_cd = math.dist(a2["p"], b["p"])
+        ctx.mark_nontrivial(0.01 < r_iou2 < 0.99 or abs(r_iou2 - s0["iou2"]) > 0.01)
+        tol_i = 1e-7 + 1e-13 * 200 / min_dim
+        ctx.require(close(s1["cd"], r_cd, 1e-6, 1e-9), "reposed:center-distance", lambda: f"after re-posing a deep copy: centre distance {s1['cd']} vs {r_cd}")
+        ctx.require(close(s1["iou2"], r_iou2, tol_i), "reposed:iou2d-value", lambda: f"after re-posing a deep copy of the estimate to {a2['p'][:2]} / yaw {a2['yaw']}: BEV IoU {s1['iou2']} vs reference {r_iou2} (before the move: {s0['iou2']})")
+        ctx.require(close(s1["iou3"], r_iou3, tol_i), "reposed:iou3d-value", lambda: f"after re-posing a deep copy: 3D IoU {s1['iou3']} vs reference {r_iou3}")
+        vals = G.plane_distance(G.rect_corners(*ba2), G.rect_corners(*bb), G.rect_corners(*bb))
+        ctx.require(any(close(s1["pd"], v, 1e-6, 1e-9) for v in vals), "reposed:plane-distance-value", lambda: f"after re-posing a deep copy: plane distance {s1['pd']} vs {vals}")
+        with ctx.under_test("get_footprint(re-posed copy)"):
+            fp = [tuple(c[:2]) for c in list(ea2.get_footprint().exterior.coords)[:4]]
+            ref = G.rect_corners(*ba2)
+            ok = all(math.dist(x, y) <= 1e-6 + 1e-9 * (abs(y[0]) + abs(y[1])) for x, y in zip(fp, ref))
+            ctx.require(ok, "reposed:footprint", lambda: f"footprint of the re-posed copy {fp} vs corners at its pose {ref}")
+    # (2) the library's own frame conversion, both objects: scores are invariant
+    ego = d["ego"]
+    with ctx.under_test("convert_objects_to_global"):
+        moved = convert_objects_to_global([ea, gb], D.hmatrix(ego))
+    if not isinstance(moved, list) or len(moved) != 2:
+        return
+    tr = D.transforms(ego)
+    s2 = _scores(ctx, moved[0], moved[1], tr=tr, what="scores(convert_objects_to_global)")
+    big = max(abs(ego[0]), abs(ego[1])) + 100
+    if s2 is not None:
+        tol_i = 1e-7 + 1e-13 * big / min_dim
+        ctx.require(
+            close(s2["cd"], s0["cd"], 1e-6 + 1e-11 * big, 1e-9) and close(s2["iou2"], s0["iou2"], tol_i) and close(s2["iou3"], s0["iou3"], tol_i),
+            "converted-to-map:score-differs",
+            lambda: f"ego-frame scores {s0} vs the same objects after convert_objects_to_global {s2} (ego pose {ego})",
+        )
+        vals0 = G.plane_distance(G.rect_corners(*D.ego_box(a)), G.rect_corners(*D.ego_box(b)), G.rect_corners(*D.ego_box(b)))
+        if len(vals0) == 1:
+            ctx.require(close(s2["pd"], s0["pd"], 1e-6 + 1e-11 * big, 1e-9), "converted-to-map:plane-distance-differs", lambda: f"{s0['pd']} vs {s2['pd']}")
+    back = None
+    with ctx.under_test("convert_objects_to_base_link"):
+        back = convert_objects_to_base_link(moved, D.hmatrix(ego))
+    if isinstance(back, list) and len(back) == 2:
+        s3 = _scores(ctx, back[0], back[1], what="scores(round trip through map)")
+        if s3 is not None:
+            tol_i = 1e-7 + 1e-13 * big / min_dim
+            ctx.require(
+                close(s3["cd"], s0["cd"], 1e-6 + 1e-11 * big, 1e-9) and close(s3["iou2"], s0["iou2"], tol_i),
+                "round-trip-through-map:score-differs",
+                lambda: f"{s0} vs after base_link -> map -> base_link {s3}",
+            )
